@@ -220,7 +220,9 @@ CStep(S0, r) ==
          IF StartsWith(r.res, "unexpected") THEN Bad(S, "C06", "a client stopped on an unexpected message: " \o r.res)
          ELSE IF StartsWith(r.client, "panic") THEN Bad(S, "C06", "a client task panicked: " \o r.client)
          ELSE IF StartsWith(r.conn, "panic") THEN Bad(S, "C06", "a connection task panicked: " \o r.conn)
-         ELSE IF r.client = "running" THEN Bad(S, IF r.cl \in S.faulty THEN "C15" ELSE "C06", "a client's run future did not return")
+         \* (the drivers end every client by one of the clean causes of C15 -- shutdown requested, last handle
+         \* dropped, broker shutdown -- so a run future that is still pending at the end is C15's subject too)
+         ELSE IF r.client = "running" THEN Bad(S, IF r.cl \in S.faulty THEN "C15" ELSE "C15+C06", "a client's run future did not return")
          ELSE IF r.conn = "running" THEN Bad(S, IF r.cl \in S.faulty THEN "C15" ELSE "C06", "a connection task did not return")
          ELSE IF r.cl \notin S.faulty /\ r.res # "ok" THEN
                 \* (a client that itself asked to stop and is answered with a broken transport: the two sides
